@@ -43,3 +43,18 @@ package metadata
 //@     assert [tenant] smi.OrgId == orgid
 //@     assert [overlap] overlaps(timeRange, smi.EarliestEpochMS, smi.LatestEpochMS)
 //@ end
+
+// C14 (nothing of a deleted segment survives, in memory either): searches read
+// the per-index slice tableSortedMetadata; removing a segment key must remove
+// its entry from that slice whatever the other entries look like (several
+// segments of an index may share LatestEpochMS, the order of the slice).
+// Segment keys are unique within an index (precondition).
+//@ func (*allSegmentMetadata).deleteSegmentKeyWithLock
+//@   props C14
+//@   requires hm != nil
+//@   requires [keys-unique-per-index] forallstr(t, forall(a, 0, len(hm.tableSortedMetadata[t]), forall(b, a+1, len(hm.tableSortedMetadata[t]), hm.tableSortedMetadata[t][a].SegmentKey != hm.tableSortedMetadata[t][b].SegmentKey)))
+//@   requires [separate-arrays] forallstr(t, disjoint(hm.allSegmentMicroIndex, hm.tableSortedMetadata[t]))
+//@   loop 2:
+//@     invariant [not-among-the-scanned] forall(k, 0, rangeindex+1, sortedTableSlice[k].SegmentKey != key)
+//@   ensures [segment-gone-from-its-index] implies(tName != "" && haskey(hm.tableSortedMetadata, tName), forall(k, 0, len(hm.tableSortedMetadata[tName]), hm.tableSortedMetadata[tName][k].SegmentKey != key))
+//@ end
